@@ -170,9 +170,10 @@ class Recorder(np.random.RandomState):
 
 # no escape hatches: no unproved goals, no extra axioms, no compiler-trusting tactics, and no metaprogramming that could add
 # declarations behind the kernel's back (Model / Lemmas / Props / Gen files need none of it)
-FORBIDDEN = re.compile(r'\b(sorry|admit|native_decide|bv_decide|implemented_by|extern|unsafe|skipKernelTC|addDecl|addAndCompile|'
-                       r'run_cmd|run_elab|run_meta|ofReduceBool|reduceBool|trustCompiler)\b|^\s*axiom\s|maxHeartbeats\s+0|'
-                       r'^\s*(elab|macro|syntax|initialize|builtin_initialize)\b|^\s*open\s+Lean\b|^\s*import\s+Lean\b', re.M)
+FORBIDDEN = re.compile(r'\b(sorry|sorryAx|admit|native_decide|bv_decide|implemented_by|extern|unsafe|skipKernelTC|addDecl\w*|addAndCompile|'
+                       r'run_cmd|run_elab|run_meta|ofReduceBool|reduceBool|trustCompiler|setEnv|modifyEnv|csimp)\b|\baxiom\s|maxHeartbeats\s+0|'
+                       r'^\s*(elab|macro|syntax|initialize|builtin_initialize|local\s+macro|local\s+notation|local\s+instance|scoped\s+instance)\b|'
+                       r'^\s*open\s+Lean\b|^\s*import\s+Lean\b|\bLean\.|#eval|#reduce|#exit|decide\s*\+native|\+native', re.M)
 ALLOWED_AXIOMS = {'propext', 'Classical.choice', 'Quot.sound'}
 
 
@@ -207,17 +208,17 @@ def theorems_in(mod):
         m = re.match(r'\s*end\s+(\S+)', line)
         if m and ns and ns[-1].split('.')[-1] == m.group(1).split('.')[-1]:
             ns.pop(); continue
-        m = re.match(r'\s*(?:@\[[^\]]*\]\s*)?(?:private\s+|protected\s+)?theorem\s+([^\s:({\[]+)', line)
+        m = re.match(r'\s*(?:@\[[^\]]*\]\s*)?(?:private\s+|protected\s+)?(?:theorem|lemma)\s+([^\s:({\[]+)', line)
         if m:
             out.append('.'.join(ns + [m.group(1)]))
     return out
 
 
-def axioms_audit(mods, theorems):
+def axioms_audit(mods, theorems, roots=None):
     """Compile a throw-away file printing the axioms and the statement of each theorem
     -> ({thm: [axioms]}, raw text); statements are kept in axioms_audit.statements {thm: normalised type string}."""
     body = 'import Lean\n' + ''.join('import %s\n' % m for m in mods) + ''.join('#print axioms %s\n#check @%s\n' % (t, t) for t in theorems)
-    body += DEFHASH_META % ', '.join('`' + t for t in theorems)
+    body += DEFHASH_META % ', '.join('`' + t for t in (theorems if roots is None else roots))
     d = os.path.join(LEAN, '.lake', 'audit'); os.makedirs(d, exist_ok=True)
     tag = getattr(axioms_audit, 'tag', None) or ('pid%d' % os.getpid())
     f = os.path.join(d, 'Audit_%s.lean' % tag)          # kept on disk: the evidence names it as the checker input
@@ -226,9 +227,9 @@ def axioms_audit(mods, theorems):
     rc, out, err = lean_run([f])
     res = {}
     txt = out + '\n' + err
-    for m in re.finditer(r"'([^']+)' depends on axioms: \[([^\]]*)\]", txt, flags=re.S):
+    for m in re.finditer(r"'(\S+)' depends on axioms: \[([^\]]*)\]", txt, flags=re.S):
         res[m.group(1)] = [a.strip() for a in m.group(2).replace('\n', ' ').split(',') if a.strip()]
-    for m in re.finditer(r"'([^']+)' does not depend on any axioms", txt):
+    for m in re.finditer(r"'(\S+)' does not depend on any axioms", txt):
         res[m.group(1)] = []
     st = {}
     cur = None
@@ -243,6 +244,7 @@ def axioms_audit(mods, theorems):
             cur = None
     axioms_audit.statements = {k: re.sub(r'\s+', ' ', v).strip() for k, v in st.items()}
     axioms_audit.defhashes = {m.group(1): m.group(2) for m in re.finditer(r'^DEFHASH (\S+) (\d+)$', out, flags=re.M)}
+    axioms_audit.thmhashes = {m.group(1): m.group(2) for m in re.finditer(r'^THMHASH (\S+) (\d+)$', out, flags=re.M)}
     return res, txt
 
 
@@ -257,13 +259,16 @@ open Lean Elab Command in
   let isProj (c : Name) : Bool :=
     match env.getModuleIdxFor? c with
     | some i => (env.header.moduleNames[i.toNat]!).getRoot == `BctVerif
+                && !(`BctVerif.Gen).isPrefixOf (env.header.moduleNames[i.toNat]!)
     | none => false
   let mut seen : NameSet := {}
   let mut todo : Array Name := #[]
   let mut out : Array (Name × UInt64) := #[]
   for r in roots do
     match env.find? r with
-    | some ci => for c in ci.type.getUsedConstants do
+    | some ci =>
+      IO.println s!"THMHASH {r} {ci.type.hash}"
+      for c in ci.type.getUsedConstants do
         if isProj c && !seen.contains c then seen := seen.insert c; todo := todo.push c
     | none => pure ()
   while !todo.isEmpty do
@@ -289,6 +294,86 @@ open Lean Elab Command in
 
 axioms_audit.statements = {}
 axioms_audit.defhashes = {}
+axioms_audit.thmhashes = {}
+
+
+def olean_file(mod):
+    return os.path.join(LEAN, '.lake', 'build', 'lib', 'lean', *mod.split('.')) + '.olean'
+
+
+def leancheck_modules(mods, jobs=4):
+    """-> ([(module, log)] rejected by leanchecker, number of modules actually run). Cache: module -> sha1 of its .olean."""
+    from concurrent.futures import ThreadPoolExecutor
+    cache_f = os.path.join(LEAN, '.lake', 'leanchecked.json')
+    try:
+        cache = json.load(open(cache_f))
+    except Exception:
+        cache = {}
+    todo = []
+    for m in mods:
+        try:
+            h = hashlib.sha1(open(olean_file(m), 'rb').read()).hexdigest()
+        except OSError:
+            h = None
+        if h is None or cache.get(m) != h:
+            todo.append((m, h))
+
+    def one(mh):
+        m, h = mh
+        for attempt in (0, 1):
+            p = subprocess.run(['lake', 'env', 'leanchecker', m], cwd=LEAN, capture_output=True, text=True, timeout=3000)
+            if p.returncode in (137, -9, -15) or p.returncode < 0:
+                continue                      # killed (memory pressure): not a verdict
+            return m, h, p.returncode, p.stdout + p.stderr
+        raise RuntimeError('leanchecker on %s was killed twice by the operating system (rc %s)' % (m, p.returncode))
+    bad, okd = [], {}
+    if todo:
+        with ThreadPoolExecutor(max_workers=jobs) as ex:
+            for m, h, rc, log in ex.map(one, todo):
+                if rc == 0 and h is not None:
+                    okd[m] = h
+                elif rc != 0:
+                    bad.append((m, log))
+        if okd:
+            try:
+                cache = json.load(open(cache_f))
+            except Exception:
+                cache = {}
+            cache.update(okd)
+            tmp = cache_f + '.%d.tmp' % os.getpid()
+            json.dump(cache, open(tmp, 'w')); os.replace(tmp, cache_f)
+    return bad, len(todo)
+
+
+
+def tree_identity():
+    """which trees this run was about: paths, git heads and whether they had uncommitted changes"""
+    def git(d, *a):
+        try:
+            return subprocess.run(['git', '-C', d] + list(a), capture_output=True, text=True, timeout=20).stdout.strip()
+        except Exception:
+            return ''
+    return {'repo': os.path.realpath(REPO), 'repo_head': git(REPO, 'rev-parse', '--short', 'HEAD'),
+            'repo_dirty': bool(git(REPO, 'status', '--porcelain', '--untracked-files=no')),
+            'verif': VERIF, 'verif_head': git(VERIF, 'rev-parse', '--short', 'HEAD'),
+            'verif_dirty': bool(git(VERIF, 'status', '--porcelain', '--untracked-files=no')),
+            'lean': os.path.realpath(LEAN)}
+
+
+
+def closure_hashes(mods, roots, tag):
+    """definition-closure hashes (see DEFHASH_META) of the statements of `roots`; one small Lean run"""
+    body = 'import Lean\n' + ''.join('import %s\n' % m for m in mods) + DEFHASH_META % ', '.join('`' + t for t in roots)
+    d = os.path.join(LEAN, '.lake', 'audit'); os.makedirs(d, exist_ok=True)
+    f = os.path.join(d, 'Closure_%s.lean' % tag)
+    open(f, 'w').write(body)
+    rc, out, err = lean_run([f])
+    return {m.group(1): m.group(2) for m in re.finditer(r'^DEFHASH (\S+) (\d+)$', out, flags=re.M)}
+
+
+def gen_pins_file():
+    return os.path.join(LEAN, 'pins', 'GEN.json')
+
 
 
 def pins_file(pid):
@@ -531,7 +616,8 @@ class Check:
         for m in list(prop_modules) + list(gen_modules):
             thms += theorems_in(m)
         axioms_audit.tag = self.pid + ('' if prop_modules else '_gen')
-        ax, txt = axioms_audit(mods, thms)
+        prop_thms = [t for m in prop_modules for t in theorems_in(m)]
+        ax, txt = axioms_audit(mods, thms, roots=(prop_thms if prop_modules else thms))
         self.checker_cmds.append('cd lean && lake env lean %s   # #print axioms + #check of %d theorems' % (axioms_audit.last_file, len(thms)))
         ok = True
         # statement pinning: the statements of the property theorems are recorded in lean/pins/<id>.json (written only by
@@ -549,7 +635,20 @@ class Check:
                         ok = False
                         self.breaks.append({'kind': 'definition-changed', 'theorem': d, 'now': now.get(d, 'missing'),
                                             'note': 'a definition used by pinned statements differs from lean/pins/%s.json' % self.pid})
+                for d in sorted(set(now) - set(defpins)):
+                    ok = False
+                    self.breaks.append({'kind': 'definition-added', 'theorem': d,
+                                        'note': 'a project constant reachable from the pinned statements is not in lean/pins/%s.json '
+                                                '(e.g. a new instance or definition that changes what a statement means)' % self.pid})
                 self.dist['pinned_definitions'] = len(defpins)
+            thmpins = pins.pop('__types__', None)
+            if thmpins is not None:
+                # structural hash of the elaborated statement (instances and implicit arguments included), next to the printed text
+                for t, h in sorted(thmpins.items()):
+                    if t in thms and axioms_audit.thmhashes.get(t) != h:
+                        ok = False
+                        self.breaks.append({'kind': 'statement-changed', 'theorem': t, 'now': 'elaborated type hash %s' % axioms_audit.thmhashes.get(t),
+                                            'note': 'the elaborated statement differs from lean/pins/%s.json although its printed form may not' % self.pid})
             for t, h in sorted(pins.items()):
                 if t not in thms:
                     continue        # reported below if its namespace is being audited
@@ -566,14 +665,41 @@ class Check:
         for t in thms:
             a = ax.get(t)
             good = a is not None and set(a) <= ALLOWED_AXIOMS
-            self.obl.append((t, good, a))
+            if t.endswith('_pin_ok'):
+                # a source pin compares normalised source text with a reviewed reference: it has no semantics and is not counted as a
+                # proof obligation; a failing pin is still a break (the routine is no longer the reviewed one)
+                self.cov.setdefault('source_pins', []).append({'pin': t, 'holds': bool(good)})
+            else:
+                self.obl.append((t, good, a))
             if not good:
                 ok = False
                 self.breaks.append({'kind': 'axiom-audit', 'theorem': t, 'axioms': a, 'log': txt[-400:] if a is None else ''})
+        # the T-gen chain: what the generated obligations MEAN (interpreters, `...Ok` checks, reference IRs, pin references, the model
+        # functions named by the `_computes` statements) is pinned per Gen module in lean/pins/GEN.json, like the property statements
+        if gen_modules and os.path.exists(gen_pins_file()):
+            gp = json.load(open(gen_pins_file()))
+            gen_thms = [t for m in gen_modules for t in theorems_in(m)]
+            now = axioms_audit.defhashes if not prop_modules else closure_hashes(list(gen_modules), gen_thms, self.pid + '_gen')
+            want = {}
+            for m in gen_modules:
+                want.update(gp.get(m, {}))
+            if all(m in gp for m in gen_modules):
+                for d in sorted(set(want) | set(now)):
+                    if want.get(d) != now.get(d):
+                        ok = False
+                        self.breaks.append({'kind': 'definition-changed', 'theorem': d, 'now': now.get(d, 'missing'),
+                                            'note': 'T-gen chain: a definition the generated obligations of %s are about differs from lean/pins/GEN.json' % ', '.join(gen_modules)})
+                self.dist['pinned_tgen_definitions'] = len(want)
+        # independent re-check of the compiled modules this gate relies on (cached per .olean; every tier)
+        if not self.leanchecker(mods):
+            ok = False
         return ok and not any(b['kind'] == 'forbidden-token' for b in self.breaks)
 
     def leanchecker(self, mods):
-        # re-check the whole project-internal import closure (Model, Lemmas, Props, Gen), not only the named modules
+        """Independent re-check (leanchecker) of every project module in the import closure of `mods` (Model, Lemmas, Props, Gen),
+        ONE MODULE PER PROCESS (3-6 s, 3-4 GB each; a single call over a whole closure needs > 50 GB) and cached by the hash of the
+        compiled .olean (lean/.lake/leanchecked.json; tools/leancheck_all.py fills it at set-up), so every tier can afford it.
+        A checker killed by the OS is retried once and is then a failure of the machinery (exit 2), never a verdict."""
         seen, stack = [], list(mods)
         while stack:
             m = stack.pop()
@@ -581,14 +707,13 @@ class Check:
                 continue
             seen.append(m)
             stack.extend(re.findall(r'^\s*import\s+(\S+)', strip_comments(open(module_file(m)).read()), flags=re.M))
-        mods = sorted(seen)
-        cmd = ['lake', 'env', 'leanchecker'] + list(mods)
-        self.checker_cmds.append('cd lean && ' + ' '.join(cmd))
-        p = subprocess.run(cmd, cwd=LEAN, capture_output=True, text=True, timeout=3000)
-        self.dist['leanchecker_rc'] = p.returncode
-        if p.returncode != 0:
-            self.breaks.append({'kind': 'leanchecker', 'modules': list(mods), 'log': (p.stdout + p.stderr)[-800:]})
-        return p.returncode == 0
+        bad, ran = leancheck_modules(sorted(seen))
+        self.checker_cmds.append('cd lean && lake env leanchecker <module>   # one process per module, %d modules in the closure, %d not cached' % (len(seen), ran))
+        self.dist['leanchecker_modules'] = len(seen); self.dist['leanchecker_run_now'] = ran
+        self.dist['leanchecker_rc'] = 1 if bad else 0
+        for m, log in bad:
+            self.breaks.append({'kind': 'leanchecker', 'modules': [m], 'log': log[-800:]})
+        return not bad
 
     # -- violations
     def violation(self, func, predicate, detail, cond=None):
@@ -627,7 +752,12 @@ class Check:
             sys.stdout.flush(); os._exit(2)
         self._never_ok()
         os.makedirs(os.path.join(VERIF, 'replays'), exist_ok=True)
-        EVD = os.environ.get('BCT_EVIDENCE', os.path.join(VERIF, 'evidence'))
+        EVD = os.environ.get('BCT_EVIDENCE')
+        if not EVD:
+            # /verif/evidence describes /verif/lean run against /repo and nothing else: a run on another tree keeps its evidence apart
+            overridden = ('BCT_LEAN' in os.environ and os.path.realpath(LEAN) != os.path.realpath(os.path.join(VERIF, 'lean'))) or \
+                         ('BCT_REPO' in os.environ and os.path.realpath(REPO) != os.path.realpath('/repo'))
+            EVD = os.path.join(VERIF, 'evidence') if not overridden else os.path.join(os.path.dirname(os.path.realpath(LEAN)), 'evidence_other_tree')
         os.makedirs(EVD, exist_ok=True)
         lines, new_viol = [], []
         for v in self.viol:
@@ -667,11 +797,15 @@ class Check:
         cov['obligations'] = len(self.obl)
         cov['discharged'] = sum(1 for o in self.obl if o[1])
         cov['checker_cmd'] = ' ; '.join(self.checker_cmds) or 'none'
-        cov['trusted_base'] = self.trusted or TRUSTED_DEFAULT
+        tb = list(self.trusted or TRUSTED_DEFAULT)
+        if not any('translate/' in x for x in tb):
+            tb.insert(0, TRUSTED_DEFAULT[0])
+        cov['trusted_base'] = tb
         cov['theorems'] = [{'name': o[0], 'discharged': o[1], 'axioms': o[2]} for o in self.obl]
         cov['input_distribution'] = self.dist
         cov['breaks'] = self.breaks[:10]
         cov['known_findings_hit'] = {k: v[1] for k, v in self.known_hit.items()}
+        cov['tree'] = tree_identity()
         ev = {'property_id': self.pid, 'tier': self.tier, 'seed': self.seed, 'level': 'proof', 'coverage': cov,
               'assumptions': self.assumptions, 'wall_s': round(time.time() - self.t0, 2), 'violations': nviol}
         json.dump(ev, open(os.path.join(EVD, self.pid + '.json'), 'w'), indent=1, default=str)
@@ -683,7 +817,8 @@ class Check:
 
 
 TRUSTED_DEFAULT = [
+    'translators translate/effects.py, translate/kernels.py, translate/cores.py (AST -> IR / normalised source text; trusted, conservative: an unrecognised construct makes a generated obligation fail); source pins among the generated obligations carry no semantics and are listed under coverage.source_pins, not among the theorems',
     'Lean 4.33.0 kernel; axioms per theorem as listed under coverage.theorems (subset of propext, Classical.choice, Quot.sound)',
-    'hand-written Lean model tied to /repo only through the correspondence runs of this check (differential testing)',
+    'hand-written Lean model tied to /repo through the correspondence runs of this check (differential testing) and, for the routines with a T-gen family, through generated obligations over IRs extracted from the current source',
     'NumPy/SciPy/CPython semantics; Python harness and oracles in /verif/harness',
 ]
